@@ -429,6 +429,12 @@ func (r *Run) Finish() int {
 			fmt.Printf("... %d more violation signatures not listed\n", len(real)-i)
 			break
 		}
+		if v.GoTest == "" && v.input != nil {
+			if c, err := ParseCfg(v.Cfg); err == nil {
+				// a plain unit test that replays the input without the explorer
+				v.GoTest = GoTestFor(c, v.input, v.Detail)
+			}
+		}
 		jb, _ := json.MarshalIndent(v, "", " ")
 		sum := sha1.Sum(jb)
 		p := filepath.Join(dir, fmt.Sprintf("%s-%s.json", r.ID, hex.EncodeToString(sum[:5])))
